@@ -50,6 +50,12 @@ class C11(Monitor):
         if not sets:
             return
         if s.quirk:
+            # not judged (hyperframe quirk, e.g. duplicate identifiers) - but what an accepted frame set is remembered
+            if s.ok:
+                for u in sets:
+                    if not u.ack:
+                        for k, v in u.settings:
+                            self.seen[s.ep][k] = v
             return
         if not s.exact:
             # bursts: only the one-ACK-per-frame count is judged
@@ -112,8 +118,11 @@ class C11(Monitor):
             self.fail('ack-event', 'a SETTINGS ACK did not yield exactly one SettingsAcknowledged', s,
                       events=[ev['t'] for ev in s.events])
             return
-        if s.out:
-            self.fail('ack-answered', 'a SETTINGS ACK made the endpoint emit frames', s)
+        # An acknowledgement is never acknowledged.  (WINDOW_UPDATE frames for streams are no answer: they return
+        # already-acknowledged bytes that the new INITIAL_WINDOW_SIZE makes due - fix 4a4b14a, property C05.)
+        if any(not (f.type == C.WINDOW_UPDATE and f.sid != 0) for f in s.out_frames):
+            self.fail('ack-answered', 'a SETTINGS ACK made the endpoint emit frames', s,
+                      frames=[f.name for f in s.out_frames][:6])
         want = trk.last_ack_changes or {}
         got = evs[0]['changed_settings']
         self.probe('acks')
